@@ -46,7 +46,7 @@ TIERS = {
     "thorough": {"runs": 1500000, "budget_s": 900, "max_ops": 60},
 }
 
-SOLVER_ONLY = ("is_sat", "is_valid", "is_unsat", "solve_assuming", "read")
+SOLVER_ONLY = ("is_sat", "is_valid", "is_unsat", "solve_assuming", "read", "oneshot_fails")
 SCRIPT_ONLY = ("assert_soft", "goal")
 
 
@@ -66,7 +66,7 @@ def gen_plan(tape, cfg):
     # swarm: which op kinds are enabled in this run
     kinds = [(6, "assert"), (3, "push"), (3, "pop"), (1, "reset"), (3, "check")]
     for w, k in [(2, "assert_soft"), (2, "goal"), (3, "is_sat"), (1, "is_valid"), (1, "is_unsat"),
-                 (2, "solve_assuming"), (2, "read")]:
+                 (2, "solve_assuming"), (2, "read"), (1, "oneshot_fails")]:
         if tape.chance(2, 3, "enable." + k):
             kinds.append((w, k))
     for _ in range(n):
@@ -123,6 +123,12 @@ def gen_plan(tape, cfg):
             ops.append({"op": "solve_assuming", "fs": fs})
         elif k == "read":
             ops.append({"op": "read"})
+        elif k == "oneshot_fails":
+            # a one-shot query that raises (the back end cannot convert the formula, or answers
+            # unknown) must also leave the assertion list as it found it
+            ops.append({"op": "oneshot_fails", "q": tape.choice(["is_sat", "is_valid", "is_unsat"], "fail.q"),
+                        "how": tape.choice(["convert", "unknown"], "fail.how"),
+                        "f": bp.gen_term(tape, bp.BOOL, 1, ctx)})
     return {"symbols": symbols, "ops": ops,
             "assumption_style": tape.choice(["z3", "native"], "assumption_style"),
             "policy": tape.choice(["uniform", "first"], "policy")}
@@ -146,7 +152,9 @@ def describe(plan):
     out = []
     for o in plan["ops"]:
         k = o["op"]
-        if "f" in o:
+        if k == "oneshot_fails":
+            out.append("%s %s (raises: %s)" % (o["q"], bp.pretty(o["f"]), o["how"]))
+        elif "f" in o:
             out.append("%s %s" % (k, bp.pretty(o["f"])) + ("" if k != "assert_soft" else
                        " :id %s :weight %s" % (o["id"], o["w"])))
         elif k in ("push", "pop"):
@@ -298,6 +306,25 @@ def _solver_half(plan, ops, symbols, tape, probe, trace):
                 raise Violation("C16:solver:assumption-verdict",
                                 "solve(assumptions) returned %s, truth is %s" % (got, want))
             unresolved_oneshot = True
+        elif k == "oneshot_fails":
+            from pysmt.exceptions import ConvertExpressionError, SolverReturnedUnknownResultError
+            import pysmt.typing as T
+            f = bp.build(o["f"], env)
+            if o["how"] == "convert":
+                f = mgr.And(f, mgr.Symbol("outside_table", T.BOOL))
+                allowed = (ConvertExpressionError,)
+            else:
+                solver.fault_plan.setdefault("unknown_at", set()).add(solver.b_counts["solve"] + 1)
+                allowed = (SolverReturnedUnknownResultError,)
+            try:
+                api(o["q"], getattr(solver, o["q"]), f, allowed=allowed)
+                raise Violation("C16:solver:failing-oneshot-returned",
+                                "%s of an unconvertible/unknown query returned instead of raising" % o["q"])
+            except allowed:
+                probe("oneshot_raised_" + o["how"])
+            solver.fault_plan.get("unknown_at", set()).clear()
+            unresolved_oneshot = True
+            nontrivial = True
         elif k == "read":
             observe("read@%d" % i)
             unresolved_oneshot = False
@@ -305,7 +332,7 @@ def _solver_half(plan, ops, symbols, tape, probe, trace):
             continue
         # observe after the step: through the API for half of the steps (a read
         # resolves a pending pop, so not reading keeps it pending for the next op)
-        if k in ("is_sat", "is_valid", "is_unsat", "solve_assuming"):
+        if k in ("is_sat", "is_valid", "is_unsat", "solve_assuming", "oneshot_fails"):
             do_read = tape.chance(1, 3, "observe.after.oneshot")
         else:
             do_read = tape.chance(2, 3, "observe.after")
